@@ -82,7 +82,7 @@ def strat_inproc(draw):
         cls = draw(st.lists(st.lists(lit, max_size=4), max_size=6))
         stdin_text = "p cnf {} {}\n".format(n, len(cls)) + "".join(" ".join(map(str, c + [0])) + "\n" for c in cls)
         fl = draw(st.lists(st.sampled_from(['-p', '-v', '-c', '-q']), unique=True, max_size=3))
-        args = ['--seed', str(seed)] + fl
+        args = argv_gen.seed_tokens(seed, draw(st.integers(0, 9))) + fl
     else:
         kind = draw(st.sampled_from(['graph-random', 'graph-random', 'numeric-random', 'deterministic'] + (['graph-in-T'] if tool == 'cnfgen' else [])))
         if kind == 'graph-in-T':
@@ -99,7 +99,7 @@ def strat_inproc(draw):
                 cmd, V = ['randkcnf', '3', str(n), str(draw(st.integers(0, 6)))], n
             spec = draw(argv_gen.bipartite_spec(random_ok=True, det_ok=draw(st.integers(0, 3)) == 0, L=V))
             labels.append('graph-in-T')
-            args = ['--seed', str(seed)] + draw(st.sampled_from(argv_gen.OUTPUT_OPTS)) + cmd + ['-T', draw(st.sampled_from(['xorcomp', 'majcomp']))] + spec
+            args = argv_gen.seed_tokens(seed, draw(st.integers(0, 9))) + draw(st.sampled_from(argv_gen.OUTPUT_OPTS)) + cmd + ['-T', draw(st.sampled_from(['xorcomp', 'majcomp']))] + spec
             if draw(st.booleans()):
                 args += draw(argv_gen.tchain(max_len=1, allow_expanding=False))
             return {'tool': tool, 'args': args, 'seed': seed, 'stdin': None, 'labels': labels,
@@ -121,7 +121,10 @@ def strat_inproc(draw):
                 out = []
         if kind == 'graph-random' and chain and any(t in chain for t in ('shuffle', 'xorcomp', 'majcomp')):
             labels.append('two-random-sources')
-        args = ['--seed', str(seed)] + out + cmd + chain
+        sform = draw(st.integers(0, 9))           # half of the cases spell the option in another accepted way
+        args = argv_gen.seed_tokens(seed, sform if sform < argv_gen.SEED_FORMS else 0) + out + cmd + chain
+        if 0 < sform < argv_gen.SEED_FORMS:
+            labels.append('seed-spelled-differently')
     return {'tool': tool, 'args': args, 'seed': seed, 'stdin': stdin_text, 'labels': labels,
             'junk1': draw(st.integers(0, 1000)), 'junk2': draw(st.integers(1001, 2000))}
 
@@ -224,6 +227,23 @@ def run_libseed(case):
             return _graph_sig(graphs.bipartite_random(a[0], a[1], 0.5, seed=seed))
         if fn == 'bipartite_random_regular':
             return _graph_sig(graphs.bipartite_random_regular(a[0], a[0], min(a[2], a[0]), seed=seed))
+        if fn in ('add_missing_dense', 'add_missing_dense_bipartite'):
+            # an almost complete graph: n vertices (per side), `miss` edges missing, m <= miss of them requested;
+            # random probing rarely hits a missing edge, so whatever the function falls back on is exercised
+            n, miss, m = a[0], a[1], min(a[2], a[1])
+            r = random.Random(a[0] * 1000 + a[1])
+            if fn == 'add_missing_dense':
+                pairs = [(u, v) for u in range(1, n + 1) for v in range(u + 1, n + 1)]
+                G = graphs.Graph(n)
+            else:
+                pairs = [(u, v) for u in range(1, n + 1) for v in range(1, n + 1)]
+                G = graphs.BipartiteGraph(n, n)
+            gone = set(r.sample(pairs, min(miss, len(pairs))))
+            for u, v in pairs:
+                if (u, v) not in gone:
+                    G.add_edge(u, v)
+            graphs.add_random_missing_edges(G, min(m, len(gone)), seed=seed)
+            return (G.number_of_vertices(), list(G.edges()))
         G = graphs.Graph(5)
         for u, v in ((1, 2), (2, 3), (3, 4), (4, 5), (1, 5)):
             G.add_edge(u, v)
@@ -243,7 +263,7 @@ def run_libseed(case):
 
 
 LIBFNS = ['RandomKCNF', 'RandomKXOR', 'bipartite_random_left_regular', 'bipartite_random_m_edges', 'bipartite_random',
-          'bipartite_random_regular', 'add_random_missing_edges', 'split_random_edges']
+          'bipartite_random_regular', 'add_random_missing_edges', 'split_random_edges', 'add_missing_dense', 'add_missing_dense_bipartite']
 
 
 @st.composite
@@ -251,6 +271,8 @@ def strat_libseed(draw):
     fn = draw(st.sampled_from(LIBFNS))
     if fn in ('RandomKCNF', 'RandomKXOR'):
         args = [draw(st.integers(1, 3)), draw(st.integers(4, 9)), draw(st.integers(0, 6))]
+    elif fn.startswith('add_missing_dense'):
+        args = [draw(st.integers(6, 30 if fn == 'add_missing_dense' else 15)), draw(st.integers(1, 9)), draw(st.integers(1, 5))]
     else:
         args = [draw(st.integers(1, 5)), draw(st.integers(1, 5)), draw(st.integers(0, 4))]
     return {'fn': fn, 'args': args, 'seed': draw(st.sampled_from([0, 1, 5, 'abc', 2 ** 70]) | st.integers(0, 10 ** 6)),
@@ -324,6 +346,8 @@ def enum_libseed(tier):
     for fn in LIBFNS:
         if fn in ('RandomKCNF', 'RandomKXOR'):
             argl = [[3, 6, 4], [2, 5, 5], [3, 9, 6], [1, 4, 2]]
+        elif fn.startswith('add_missing_dense'):
+            argl = [[30, 8, 3], [20, 5, 2], [12, 9, 4], [15, 3, 3]] if fn == 'add_missing_dense' else [[15, 8, 3], [10, 5, 2], [8, 9, 4]]
         else:
             argl = [[3, 4, 2], [4, 4, 2], [5, 5, 3], [2, 3, 1], [4, 5, 4]]
         for args in argl:
@@ -333,9 +357,9 @@ def enum_libseed(tier):
 
 SUBCHECKS = [
     SubCheck('inproc', run_inproc, strategy=strat_inproc, quick=800, thorough=60000,
-             rule="command lines with --seed (seeds 0, 1, -1, 2^31, 2^64+3 and random) for cnfgen (+ -T chains), pbgen and cnfshuffle (DIMACS on stdin): every graph-taking sub-command with random and deterministic graph constructions and random modifiers, numeric random sub-commands, deterministic ones, '-T xorcomp|majcomp <random bipartite construction>' with the graph sampled while the command line is parsed, all output formats; oracle: two in-process runs of main() started from two different states of the global generator print identical (exit status, stdout, stderr) and no object address; non-trivial: exit 0 and the global generator was advanced past a freshly seeded state (the run drew random numbers)",
+             rule="command lines with --seed (seeds 0, 1, -1, 2^31, 2^64+3 and random; the option spelled '--seed N', '-S N', '--seed=N', '-SN' or '--see N') for cnfgen (+ -T chains), pbgen and cnfshuffle (DIMACS on stdin): every graph-taking sub-command with random and deterministic graph constructions and random modifiers, numeric random sub-commands, deterministic ones, '-T xorcomp|majcomp <random bipartite construction>' with the graph sampled while the command line is parsed, all output formats; oracle: two in-process runs of main() started from two different states of the global generator print identical (exit status, stdout, stderr) and no object address; non-trivial: exit 0 and the global generator was advanced past a freshly seeded state (the run drew random numbers)",
              required_labels=['seed=0', 'random-graph-arg', 'random-family', 'random-transformation', 'two-random-sources',
-                              'pbgen', 'cnfshuffle', 'cnfgen', 'deterministic-family', 'graph-in-T']),
+                              'pbgen', 'cnfshuffle', 'cnfgen', 'deterministic-family', 'graph-in-T', 'seed-spelled-differently']),
     SubCheck('xproc', run_xproc, strategy=strat_xproc, quick=32, thorough=1600,
              rule="batches of 1..30 of the same command lines, each batch executed in two fresh processes with different PYTHONHASHSEED (0/1/4242 vs random/17/99999) and different working directories (the checkout vs a sub-directory, with a blank in its name, of an unrelated tagged git repository); oracle: identical exit status and stdout bytes (header included); non-trivial: exit 0",
              required_labels=['cross-process', 'cross-cwd']),
